@@ -325,8 +325,21 @@ func (p Plugin) getNodeResourceInfo(ctx context.Context, nodename string, worklo
 		}
 	}
 
+	// usage recorded on a core the node does not have is a difference too (the loop above only visits capacity)
+	for cpu := range nodeResourceInfo.Usage.CPUMap {
+		if _, ok := nodeResourceInfo.Capacity.CPUMap[cpu]; !ok && actuallyWorkloadsUsage.CPUMap[cpu] != nodeResourceInfo.Usage.CPUMap[cpu] {
+			diffs = append(diffs, fmt.Sprintf("node.CPUMap[%+v] != sum(workload.CPUMap[%+v]): %+v != %+v", cpu, cpu, nodeResourceInfo.Usage.CPUMap[cpu], actuallyWorkloadsUsage.CPUMap[cpu]))
+		}
+	}
+
 	for numaNodeID := range nodeResourceInfo.Capacity.NUMAMemory {
 		if actuallyWorkloadsUsage.NUMAMemory[numaNodeID] != nodeResourceInfo.Usage.NUMAMemory[numaNodeID] {
+			diffs = append(diffs, fmt.Sprintf("node.NUMAMemory[%+v] != sum(workload.NUMAMemory[%+v]: %+v != %+v)", numaNodeID, numaNodeID, nodeResourceInfo.Usage.NUMAMemory[numaNodeID], actuallyWorkloadsUsage.NUMAMemory[numaNodeID]))
+		}
+	}
+
+	for numaNodeID := range nodeResourceInfo.Usage.NUMAMemory {
+		if _, ok := nodeResourceInfo.Capacity.NUMAMemory[numaNodeID]; !ok && actuallyWorkloadsUsage.NUMAMemory[numaNodeID] != nodeResourceInfo.Usage.NUMAMemory[numaNodeID] {
 			diffs = append(diffs, fmt.Sprintf("node.NUMAMemory[%+v] != sum(workload.NUMAMemory[%+v]: %+v != %+v)", numaNodeID, numaNodeID, nodeResourceInfo.Usage.NUMAMemory[numaNodeID], actuallyWorkloadsUsage.NUMAMemory[numaNodeID]))
 		}
 	}
